@@ -10,6 +10,7 @@ package main
 import (
 	"bytes"
 	"fmt"
+	"sort"
 	"strings"
 
 	"github.com/cocosip/go-dicom-codecs/jpeg/standard"
@@ -165,6 +166,30 @@ func c13DecoderConforms(c *hx.Ctx, sv1 bool, im c02Img, pred int, tableKind int,
 	}
 	if im.W*im.H*im.NC <= 48 && !sv1 {
 		c13SpecStream(c, stream, "reference-encoder")
+	}
+	if im.W*im.H*im.NC <= 48 && !cfg.DHTAfterSOF && !cfg.Extras && !cfg.OneDHT && !cfg.RepoEdge {
+		// t81-stream-enc: the Lean specification's stream ENCODER (Spec/T81HEnc.lean) produces the same bytes
+		// as the Go reference encoder for this configuration (tables in ascending destination order)
+		var dests []int
+		for d := range cfg.Tables {
+			dests = append(dests, d)
+		}
+		sort.Ints(dests)
+		var tabs, pls []string
+		for _, d := range dests {
+			t := cfg.Tables[d]
+			var bs []string
+			for _, b := range t.Bits {
+				bs = append(bs, fmt.Sprint(b))
+			}
+			tabs = append(tabs, fmt.Sprintf("%d/%s/%s", d, strings.Join(bs, "."), hx.Hex(t.Vals)))
+		}
+		for k := 0; k < im.NC; k++ {
+			pls = append(pls, c02IntsStr(im.S[k]))
+		}
+		c.Case(fmt.Sprintf("t81-stream-enc %d %d %d %d %s %s %s %s", im.P, im.W, im.H, pred, c02IntsStr(cfg.CompIDs), c02IntsStr(cfg.Td),
+			strings.Join(tabs, "+"), strings.Join(pls, "|")), "ok "+hx.Hex(stream))
+		c.Count("spec-stream-enc")
 	}
 	name := "jll"
 	if sv1 {
